@@ -30,7 +30,7 @@ import (
 // the Go race detector evaluated on the simulated interleaving (race build).
 
 var concFaults = []string{"preempt", "lock-contended", "curve-first-use", "close-during-write", "rotation-during-handshake", "pct-schedule", "dense-preemption", "transport-write-blocks", "peer-transport-abort"}
-var concReach = []string{"block-shared", "pkg-sign", "pkg-encrypt", "pkg-hash", "pkg-sm4", "pkg-parse", "pkg-pkcs7-ber", "pkg-verify-chain", "cache-linearizable", "cache-eviction", "pool-verify", "conn-linearizable", "conn-close-raced", "write-after-close-failed", "config-handshakes", "config-rotated", "config-resumed", "config-followup-resumption-owed", "config-rotation-inside-ticket-code", "conn-multi-record-writes", "conn-write-inside-last-flight", "conn-quiet-peer", "conn-concurrent-ekm", "tasks>=8", "tasks>=16", "porcupine-unknown"}
+var concReach = []string{"block-shared", "pkg-sign", "pkg-encrypt", "pkg-hash", "pkg-sm4", "pkg-parse", "pkg-pkcs7-ber", "pkg-verify-chain", "cache-linearizable", "cache-eviction", "pool-verify", "pool-verify-rejecting", "conn-linearizable", "conn-close-raced", "write-after-close-failed", "config-handshakes", "config-rotated", "config-resumed", "config-followup-resumption-owed", "config-rotation-inside-ticket-code", "conn-multi-record-writes", "conn-write-inside-last-flight", "conn-quiet-peer", "conn-concurrent-ekm", "tasks>=8", "tasks>=16", "porcupine-unknown"}
 
 func init() {
 	for i, p := range []struct {
@@ -568,30 +568,72 @@ func runConcCache(c *simkit.Choice, r *simkit.Rec) {
 func runConcPool(c *simkit.Choice, r *simkit.Rec) {
 	pki.Load()
 	nt := drawTasks(c, 6)
-	roots := pki.Pool("caA", "caB")
-	inter := pki.Pool("caAint")
-	names := []string{"srv-sign", "srvint-sign", "cli", "srvB-sign", "srvexp-sign", "srvother-sign"}
+	// Pool composition is drawn: genuine roots, a root that only looks like caA
+	// (same subject and key identifier, own key), both, or only the look-alike.
+	rootSets := [][]string{{"caA", "caB"}, {"lookCA", "caB"}, {"lookCA"}, {"lookCA", "caA", "caB"}, {"caA", "lookCA", "rsaCA"}, {"caB"}, {"lookA-sign", "caA"}}
+	interSets := [][]string{{"caAint"}, {"caAint", "rsaInt"}, {}, {"lookInt", "caAint"}, {"lookInt"}}
+	rootNames := rootSets[c.Choose(len(rootSets), simkit.LOp)]
+	interNames := interSets[c.Weighted([]int{5, 2, 1, 3, 1}, simkit.LOp)]
+	names := []string{"srv-sign", "srvint-sign", "cli", "srvB-sign", "srvexp-sign", "srvother-sign", "cliint", "caAint"}
+	// cold: every certificate object of the concurrent phase is parsed for this
+	// run and never touched before the tasks start (a lazily filled per-object
+	// cache is then filled by the concurrent callers, not by the harness).
+	// shareLeaf: all tasks verify the same leaf objects; otherwise each task
+	// parses its own leaf inside the task.
+	shareLeaf := c.Bool(1, 2, simkit.LOp)
 	plan := make([][]int, nt)
 	for i := range plan {
 		n := c.Range(1, 2, simkit.LOp)
 		for j := 0; j < n; j++ {
+			if i > 0 && c.Range(0, 2, simkit.LOp) == 0 {
+				// the same verification as the first task: same child, same candidates
+				plan[i] = append(plan[i], plan[0][0])
+				continue
+			}
 			plan[i] = append(plan[i], c.Choose(len(names), simkit.LOp))
 		}
 	}
 	pol := drawConcPolicy(c, r, 600*nt)
-	r.Config = "pool"
+	r.Config = fmt.Sprintf("pool-r%v-i%v-share%v", rootNames, interNames, shareLeaf)
 	r.Sig(uint64(nt) | 4<<20)
-	verify := func(k int) string {
-		cert := pki.Cert(names[k])
+	parse := func(n string) *x509.Certificate {
+		x, err := x509.ParseCertificate(pki.DER(n))
+		if err != nil {
+			panic(fmt.Sprintf("conc-pool: fixture %s does not parse: %v", n, err))
+		}
+		return x
+	}
+	type world struct {
+		roots, inter *x509.CertPool
+		leaf         map[int]*x509.Certificate
+	}
+	mkWorld := func() *world {
+		w := &world{roots: x509.NewCertPool(), inter: x509.NewCertPool(), leaf: map[int]*x509.Certificate{}}
+		for _, n := range rootNames {
+			w.roots.AddCert(parse(n))
+		}
+		for _, n := range interNames {
+			w.inter.AddCert(parse(n))
+		}
+		for k, n := range names {
+			w.leaf[k] = parse(n)
+		}
+		return w
+	}
+	verify := func(w *world, k int, own bool) string {
+		cert := w.leaf[k]
+		if own {
+			cert = parse(names[k])
+		}
 		dns := ""
 		if k%2 == 0 {
 			dns = "server.sim"
 		}
-		chains, err := cert.Verify(x509.VerifyOptions{Roots: roots, Intermediates: inter, CurrentTime: simkit.TimeAt(0), DNSName: dns, KeyUsages: []x509.ExtKeyUsage{x509.ExtKeyUsageAny}})
+		chains, err := cert.Verify(x509.VerifyOptions{Roots: w.roots, Intermediates: w.inter, CurrentTime: simkit.TimeAt(0), DNSName: dns, KeyUsages: []x509.ExtKeyUsage{x509.ExtKeyUsageAny}})
 		d := ""
 		for _, ch := range chains {
 			for _, x := range ch {
-				d += x.Subject.CommonName + ">"
+				d += fmt.Sprintf("%s#%x>", x.Subject.CommonName, x.SerialNumber)
 			}
 			d += ";"
 		}
@@ -599,13 +641,19 @@ func runConcPool(c *simkit.Choice, r *simkit.Rec) {
 	}
 	want := make([][]string, nt)
 	simkit.Guard(r, func() {
+		ws := mkWorld()
 		for i := range plan {
 			for _, k := range plan[i] {
-				want[i] = append(want[i], verify(k))
+				want[i] = append(want[i], verify(ws, k, !shareLeaf))
 			}
 		}
 	})
 	if r.Violation() != nil || r.HarnessErr != "" {
+		return
+	}
+	var wc *world
+	simkit.Guard(r, func() { wc = mkWorld() })
+	if r.HarnessErr != "" {
 		return
 	}
 	got := make([][]string, nt)
@@ -615,20 +663,31 @@ func runConcPool(c *simkit.Choice, r *simkit.Rec) {
 		got[i] = make([]string, len(plan[i]))
 		s.Spawn(fmt.Sprintf("t%d", i), i, func() {
 			for j, k := range plan[i] {
-				got[i][j] = verify(k)
+				got[i][j] = verify(wc, k, !shareLeaf)
 			}
 		})
 	}
 	s.Run()
 	r.Reach(idx(concReach, "pool-verify"))
-	r.Detail = map[string]interface{}{"program": "conc-pool", "tasks": nt, "policy": fmt.Sprintf("%+v", pol), "preempts": s.Preempts}
+	rejected := false
+	for i := range want {
+		for _, x := range want[i] {
+			if strings.HasPrefix(x, "|") {
+				rejected = true
+			}
+		}
+	}
+	if rejected {
+		r.Reach(idx(concReach, "pool-verify-rejecting"))
+	}
+	r.Detail = map[string]interface{}{"program": "conc-pool", "tasks": nt, "policy": fmt.Sprintf("%+v", pol), "preempts": s.Preempts, "roots": rootNames, "intermediates": interNames, "shareLeaf": shareLeaf}
 	if !concFinish(s, r, "x509.CertPool") {
 		return
 	}
 	for i := range plan {
 		for j := range plan[i] {
 			if got[i][j] != want[i][j] {
-				r.Violate("result-differs", "x509.(*Certificate).Verify", fmt.Sprintf("task %d verification %d of %s: concurrent %q, sequential %q", i, j, names[plan[i][j]], got[i][j], want[i][j]))
+				r.Violate("result-differs", "x509.(*Certificate).Verify", fmt.Sprintf("task %d verification %d of %s (roots %v, intermediates %v): concurrent %q, sequential %q", i, j, names[plan[i][j]], rootNames, interNames, got[i][j], want[i][j]))
 				return
 			}
 		}
